@@ -39,7 +39,10 @@ KINDS = ["cat|cat_date", "cat|cat_date+ins", "mr|cat_date", "cat|cat_date+mean",
          "cat_date(strand)+mean", "cat|cat(not date)", "cat(strand, not date)+mean",
          # periods of time that are no categorical-date dimension either
          "cat|datetime(not date)", "datetime(strand, not date)+mean", "cat|text(not date)",
-         "cat|binned(not date)+mean"]
+         "cat|binned(not date)+mean",
+         # the response also says how many valid values each mean rests on: the smoothed mean
+         # stays the plain mean of the period means
+         "cat_date(strand)+mean+vc", "cat|cat_date+mean+vc"]
 
 _contract = {"evals": 0, "violations": []}
 
@@ -151,6 +154,8 @@ def make_case(unit):
         facets = [("cat", tvar)]
         tr["rows_dimension"] = {"smoother": sm}
         mset, numvar = ("mean",), g.num(N, p_missing=0.1)
+        if "+vc" in kind:
+            mset, numvar = ("mean", "valid_counts"), g.num(N, p_missing=0.5)
     else:
         if kind.startswith("mr"):
             rows = ("mr", g.mr(N, n_items=3, p_missing=0.1))
@@ -170,6 +175,8 @@ def make_case(unit):
         tr["columns_dimension"] = {"smoother": sm}
         if "+mean" in kind:
             mset, numvar = ("mean",), g.num(N, p_missing=0.1)
+            if "+vc" in kind:
+                mset, numvar = ("mean", "valid_counts"), g.num(N, p_missing=0.5)
     spec = sim.CubeSpec(facets, g.weights(N, g.pick(["none", "frac"])), mset, numvar)
     return {"spec": sim.spec_to_dict(spec), "transforms": tr, "cfg": cfg, "template": kind}
 
